@@ -8,6 +8,8 @@ import (
 	"encoding/json"
 	"fmt"
 	"math"
+	"os"
+	"path/filepath"
 	"sort"
 	"sync"
 	"time"
@@ -18,7 +20,9 @@ import (
 	"github.com/ontio/ontology/common"
 	"github.com/ontio/ontology/common/log"
 	vconfig "github.com/ontio/ontology/consensus/vbft/config"
+	"github.com/ontio/ontology/core/ledger"
 	"github.com/ontio/ontology/core/signature"
+	"github.com/ontio/ontology/core/store/ledgerstore"
 	"github.com/ontio/ontology/core/store"
 	"github.com/ontio/ontology/core/store/overlaydb"
 	"github.com/ontio/ontology/core/types"
@@ -37,6 +41,17 @@ type vbNet struct {
 	// signature cache
 	sigs map[string][]byte
 	ver  map[string]bool
+	// an EMPTY real ledger store (no genesis): only so that look-ups of blocks that do not exist return "not found"
+	// instead of dereferencing a nil ledger (C34 replays)
+	db *ledger.Ledger
+}
+
+func (net *vbNet) withEmptyLedger() {
+	dir := filepath.Join(os.Getenv("VERIF_SCRATCH"), fmt.Sprintf("vbledger-%d", os.Getpid()))
+	os.RemoveAll(dir)
+	st, err := ledgerstore.NewLedgerStore(dir, 0)
+	vhMust(err)
+	net.db = &ledger.Ledger{LedgerStore: st}
 }
 
 var vbOnce sync.Once
@@ -162,6 +177,9 @@ func (net *vbNet) vbServer(idx uint32) *Server {
 	s.config = &cfg
 	s.chainStore = &ChainStore{chainedBlockNum: 0, pendingBlocks: map[uint32]*PendingBlock{
 		0: {block: net.genesis, execResult: &store.ExecuteResult{WriteSet: overlaydb.NewMemDB(1, 1)}, hasSubmitted: true}}}
+	if net.db != nil {
+		s.chainStore.db = net.db
+	}
 	var err error
 	s.blockPool, err = newBlockPool(s, 64, s.chainStore)
 	vhMust(err)
